@@ -73,7 +73,11 @@ fn c15_u_region_slice() {
     // run-time replacement (what SET_LOG_BASE does for every region)
     b.replace(AtomicBitmapMmap { logmem: Arc::clone(&logmem), pages_before_region: s, number_of_pages: n });
     let base: usize = kani::any();
-    let sl = ManuallyDrop::new(b.slice_at(base));
+    let sl1 = ManuallyDrop::new(b.slice_at(base));
+    // ... and a slice of that slice (vm-memory hands out nested volatile slices): offsets accumulate
+    let base2: usize = kani::any();
+    let sl = ManuallyDrop::new(sl1.slice_at(base2));
+    let base = base.saturating_add(base2);
     let off: usize = kani::any();
     let len: usize = kani::any();
     sl.mark_dirty(off, len);
